@@ -212,4 +212,87 @@ theorem run_section (homes : Env) (esc : Bool) (W : Env → Str × Str → Str) 
   rw [List.foldl_cons, h0, fold_section homes esc W defs hn hw e]
   simp [finish, idle]
 
+/-- not one of the two tilde shapes `_get_variable_value_definition` leaves (partly) unquoted -/
+def NotTildeForm (u : Str) : Prop := tildeSlash u = none ∧ tildeBare u = false
+
+theorem define_of_notTildeForm (esc : Bool) (v : Str) (h : NotTildeForm (escape esc v)) :
+    define esc v = ['"'] ++ escape esc v ++ ['"'] := by
+  unfold define
+  simp [h.1, h.2]
+
+theorem notTildeForm_of_head (u : Str) (h : u.head? ≠ some '~') : NotTildeForm u := by
+  cases u with
+  | nil => exact ⟨by simp [tildeSlash], by simp [tildeBare]⟩
+  | cons c r =>
+    have hc : c ≠ '~' := by intro hc; simp [hc] at h
+    constructor
+    · unfold tildeSlash
+      split
+      · rename_i heq; simp at heq; exact absurd heq.1 hc
+      · rfl
+    · unfold tildeBare
+      split
+      · rename_i heq; simp at heq; exact absurd heq.1 hc
+      · rfl
+
+/-- literal text that merely starts with a tilde: a whitespace character (not the last character)
+occurs before the first slash, so the text up to the slash cannot be a login name -/
+def BlankTilde (v : Str) : Prop :=
+  ∃ p w rest, v = '~' :: (p ++ w :: rest) ∧ (∀ c ∈ p, c ≠ '/' ∧ isPySpace c = false) ∧
+    isPySpace w = true ∧ rest ≠ []
+
+theorem dropWhile_prefix (f : Char → Bool) (p l : Str) (h : ∀ c ∈ p, f c = true) :
+    (p ++ l).dropWhile f = l.dropWhile f := by
+  induction p with
+  | nil => rfl
+  | cons c r ih =>
+    simp [h c (by simp), ih (fun x hx => h x (by simp [hx]))]
+
+theorem notTildeForm_of_blankTilde (u : Str) (h : BlankTilde u) : NotTildeForm u := by
+  obtain ⟨p, w, rest, rfl, hp, hw, hr⟩ := h
+  have hws : w ≠ '/' := by
+    intro e; subst e; revert hw; decide
+  constructor
+  · unfold tildeSlash
+    simp only
+    have hd : (p ++ w :: rest).dropWhile (fun c => !(c == '/' || isPySpace c)) = w :: rest := by
+      rw [dropWhile_prefix _ p _ (by intro c hc; simp [(hp c hc).1, (hp c hc).2])]
+      simp [hw]
+    rw [hd]
+    split
+    · rename_i heq; simp at heq; exact absurd heq.1 hws
+    · rfl
+  · unfold tildeBare
+    simp only
+    have hmem : w ∈ (p ++ w :: rest).dropLast := by
+      rw [List.dropLast_append_of_ne_nil (by simp), List.dropLast_cons_of_ne_nil hr]
+      simp
+    have hmem2 : w ∈ p ++ w :: rest := by simp
+    split <;> simp only [Bool.not_eq_false', List.any_eq_true]
+    · exact ⟨w, hmem, hw⟩
+    · exact ⟨w, hmem2, hw⟩
+
+theorem esc1_ne_nil (c : Char) : esc1 c ≠ [] := by
+  unfold esc1; split <;> simp
+
+theorem blankTilde_escaped (v : Str) (h : BlankTilde v) : BlankTilde (v.flatMap esc1) := by
+  obtain ⟨p, w, rest, rfl, hp, hw, hr⟩ := h
+  have hwq : w ≠ '"' := by intro e; subst e; revert hw; decide
+  refine ⟨p.flatMap esc1, w, rest.flatMap esc1, ?_, ?_, hw, ?_⟩
+  · simp [List.flatMap_cons, List.flatMap_append, esc1, hwq]
+  · intro c hc
+    obtain ⟨a, ha, hca⟩ := List.mem_flatMap.1 hc
+    unfold esc1 at hca
+    split at hca
+    · simp only [List.mem_cons, List.not_mem_nil, or_false] at hca
+      rcases hca with rfl | rfl <;> exact ⟨by decide, by decide⟩
+    · simp only [List.mem_singleton] at hca
+      subst hca; exact hp c ha
+  · cases rest with
+    | nil => exact absurd rfl hr
+    | cons a r =>
+      intro e
+      simp only [List.flatMap_cons, List.append_eq_nil_iff] at e
+      exact esc1_ne_nil a e.1
+
 end CylcModel.Bash
